@@ -40,13 +40,38 @@ def _candidate_types(fn, depth=0, seen=None):
 
 
 def plan_callables(fn):
-    """The per-field codecs captured by an entity closure, found by SHAPE, not by the names of its
-    private variables: a captured dict keyed by dataclasses.Field maps regular fields to their codec,
-    a captured dict keyed by int maps tags to a tuple that contains the Field and its codec.
-    Returns ({field name: callable}, {tag: (field name, callable)})."""
+    """The per-field codecs captured by an entity closure, found by SHAPE, not by the names or container types of
+    its private variables: any captured dict / tuple / list whose entries pair a field of the class (a
+    dataclasses.Field, or its name) with a callable. Whether the entry is a tagged one is read from the field's own
+    metadata. Returns ({field name: callable}, {tag: (field name, callable)})."""
     import dataclasses
     regular, tagged = {}, {}
     seen = set()
+    ident = identify(fn)
+    T = ident[1] if ident else None
+    by_name = {f.name: f for f in dataclasses.fields(T)} if T is not None else {}
+
+    def flat(x):
+        if isinstance(x, (tuple, list)):
+            for y in x:
+                yield from flat(y)
+        else:
+            yield x
+
+    def entry(parts):
+        parts = list(parts)
+        fns = [p for p in parts if callable(p) and not isinstance(p, type)]
+        flds = [p for p in parts if isinstance(p, dataclasses.Field)]
+        names = [p for p in parts if isinstance(p, str) and p in by_name]
+        if not fns or not (flds or names):
+            return
+        name = flds[0].name if flds else names[0]
+        f = by_name.get(name, flds[0] if flds else None)
+        tag = f.metadata.get("tag") if f is not None else None
+        if tag is None:
+            regular.setdefault(name, fns[0])
+        else:
+            tagged.setdefault(int(tag), (name, fns[0]))
 
     def walk(f, depth):
         for v in _cells(f).values():
@@ -55,13 +80,10 @@ def plan_callables(fn):
             seen.add(id(v))
             if isinstance(v, dict) and v:
                 for k, val in v.items():
-                    parts = val if isinstance(val, tuple) else (val,)
-                    fns = [p for p in parts if callable(p) and not isinstance(p, type)]
-                    flds = [p for p in parts if isinstance(p, dataclasses.Field)]
-                    if isinstance(k, dataclasses.Field) and fns:
-                        regular[k.name] = fns[0]
-                    elif isinstance(k, int) and not isinstance(k, bool) and fns and flds:
-                        tagged[int(k)] = (flds[0].name, fns[0])
+                    entry([k] + list(flat(val)))
+            elif isinstance(v, (tuple, list)) and v and all(isinstance(e, (tuple, list)) for e in v):
+                for e in v:
+                    entry(flat(e))
             elif callable(v) and getattr(v, "__closure__", None) and depth < 2 \
                     and (getattr(v, "__module__", "") or "").startswith("kio.serial._"):
                 if identify(v) is None:          # a private helper of the same closure, not a nested entity codec
@@ -79,11 +101,14 @@ def identify(fn):
     for T in _candidate_types(fn):
         for nullable in (False, True):
             for kind, api in (("writer", entity_writer), ("reader", entity_reader)):
-                try:
-                    if api(T, nullable) is fn:
-                        return kind, T, nullable
-                except Exception:        # noqa: BLE001
-                    continue
+                # functools.cache keys on the call shape: f(T), f(T, False) and f(T, nullable=False) are three entries
+                shapes = [lambda: api(T, nullable), lambda: api(T, nullable=nullable)] + ([lambda: api(T)] if not nullable else [])
+                for call in shapes:
+                    try:
+                        if call() is fn:
+                            return kind, T, nullable
+                    except Exception:        # noqa: BLE001
+                        continue
     # fall back on the private names (an API that stopped caching hands out a new object each time)
     q = getattr(fn, "__qualname__", "")
     cells = _cells(fn)
